@@ -32,7 +32,9 @@ ASSUMPTIONS = [
     "no autograd thread (re-parenting is C13)",
     "the trace contains exactly one profiler 'Trace' span entry, as Kineto writes it (the overlay step of this analysis annotates it)",
 ]
-OPS = ["aten::add", "aten::add_", "aten::addmm", "aten::linear", "my_module", "my_module_v2"]
+OPS = ["aten::add", "aten::add_", "aten::addmm", "aten::linear", "my_module", "my_module_v2",
+       # names PyTorch really writes that contain regular-expression metacharacters: the operator name is matched literally
+       "enumerate(DataLoader)#_SingleProcessDataLoaderIter.__next__", "torch/nn/modules/linear.py(114): forward"]
 KNAMES = ["gemm_kernel_a", "gemm_kernel_b", "k_relu", "k_softmax", "Memcpy DtoD (Device -> Device)"]
 
 
@@ -172,6 +174,8 @@ def _validate(case, p, rank, df, where) -> CaseInfo:
     if len(names) >= 2:
         classes.append("substring_matches_several_names")
     classes.append(f"min_len={p['min_len']}")
+    if any(ch in p["op"] for ch in "()[]|+*?"):
+        classes.append("operator_name_with_regex_metacharacters")
     return CaseInfo(nontrivial=len(want) >= 2 and any(v[0] >= 2 for v in want.values()), classes=classes)
 
 
@@ -201,6 +205,6 @@ def view(case):
 
 def campaigns(tier: str) -> List[Campaign]:
     return [Campaign("sequences", c16_case(), check, quick=480, thorough=11200, quick_shards=8,
-                     required_classes={"several_patterns": 0.1, "repeated_pattern": 0.2, "substring_matches_several_names": 0.08,
-                                       "no_pattern": 0.02, "rank_0_after_another_rank": 0.015},
+                     required_classes={"several_patterns": 0.1, "repeated_pattern": 0.2, "substring_matches_several_names": 0.04,
+                                       "no_pattern": 0.02, "rank_0_after_another_rank": 0.015, "operator_name_with_regex_metacharacters": 0.04},
                      sample_view=view)]
